@@ -4,12 +4,12 @@ Not part of any registered command."""
 import glob, os, re, subprocess, sys, time
 HERE = os.path.dirname(os.path.dirname(os.path.abspath(__file__)))
 seeds = os.environ.get("MUT_SEEDS", "0,1")
-rows = []
-only = sys.argv[1:]
-for path in sorted(glob.glob(os.path.join(HERE, "mutants", "*.patch")) + glob.glob(os.path.join(HERE, "seeded", "*", "patch.diff"))):
+only = [a for a in sys.argv[1:] if not a.startswith("-j")]
+JOBS = int(([a[2:] for a in sys.argv[1:] if a.startswith("-j")] or ["1"])[0])
+def one(path):
     name = os.path.basename(path) if path.endswith(".patch") else os.path.basename(os.path.dirname(path)) + "/patch.diff"
     if only and not any(o in name for o in only):
-        continue
+        return None
     head = open(path).read(400)
     m = re.search(r"# property: ([C0-9, ]+)", head)
     if m:
@@ -30,8 +30,14 @@ for path in sorted(glob.glob(os.path.join(HERE, "mutants", "*.patch")) + glob.gl
     if os.path.exists(metap) and str(__import__("json").load(open(metap)).get("detected_by", "")).startswith("not detected, deliberately"):
         status = [x.replace("MISSED", "NOT-JUDGED (see meta.json)") for x in status]
     eg = re.search(r"e\.g\. \['([^']*)'", out)
-    rows.append((name, suite.group(1)[:24] if suite else "-", " ".join(status), eg.group(1) if eg else "", round(time.time() - t0)))
-    print(rows[-1], flush=True)
+    row = (name, suite.group(1)[:24] if suite else "-", " ".join(status), eg.group(1) if eg else "", round(time.time() - t0))
+    print(row, flush=True)
+    return row
+
+
+from concurrent.futures import ThreadPoolExecutor
+with ThreadPoolExecutor(JOBS) as ex:
+    rows = [r for r in ex.map(one, sorted(glob.glob(os.path.join(HERE, "mutants", "*.patch")) + glob.glob(os.path.join(HERE, "seeded", "*", "patch.diff")))) if r is not None]
 with open(os.path.join(HERE, "mutants", "RESULTS.md"), "w") as fh:
     fh.write("# Mutant / seeded-change detection results (seeds %s, quick tier)\n\n" % seeds)
     fh.write("Produced by `tools/run_mutants.py` on repo commit %s.\n\n" % subprocess.run(["git", "-C", "/repo", "log", "--format=%h", "-1"], capture_output=True, text=True).stdout.strip())
